@@ -73,6 +73,16 @@ def gen(rng, tier, dist):
         for cap in range(0, 76 + 9):
             out.append("sub %d %d %d %d" % (cap, vals[0], vals[1], vals[2]))
             dist["subtree-capacities"] = dist.get("subtree-capacities", 0) + 1
+    # a bundle lying across the wrap of a ring: every split of small nested bundles
+    from props.C02 import tree_bytes
+    for _ in range(40 if tier == "quick" else 1500):
+        t = ("B", rng.getrandbits(64), [gen_tree(rng, rng.choice([0, 1, 2])) for _ in range(rng.choice([0, 1, 2, 3]))])
+        b = tree_bytes(t)
+        if len(b) > 160:
+            continue
+        for cut in range(len(b) + 1):
+            out.append("ring %s %d" % (b.hex(), cut))
+            dist["ring-splits"] = dist.get("ring-splits", 0) + 1
     for _ in range(300 if tier == "quick" else 5000):
         a, tg, ar = gen_message(rng)
         if rng.random() < 0.3:
@@ -98,6 +108,11 @@ def spec_check(case, impl):
             # does not fit: 0 is returned and nothing outside the block is touched (ASan); the block keeps its size
             if g.get("r") != "0" or (cap and len(g.get("b", "")) != 2 * cap):
                 return "bundles: subtree_serialize with capacity %d < %d returned %s" % (cap, len(B), g.get("r"))
+        return None
+    if f[0] == "ring":
+        n = len(f[1]) // 2
+        if impl != "RL=%d" % n:
+            return "bundles: a %d-byte bundle split over two ring segments at %s is measured as %s" % (n, f[2], impl)
         return None
     if f[0] == "pm":
         if impl != "p=0":
